@@ -3,7 +3,9 @@ package props
 import (
 	"fmt"
 	"os"
+	"os/exec"
 	"path/filepath"
+	"runtime"
 	"time"
 
 	"verifharness/internal/fw"
@@ -39,10 +41,32 @@ func binSample(c *fw.Ctx, res *fw.Result, idx int, tag string, files map[string]
 			res.Count("binary_runs_over_existing_output_file", 1)
 		}
 	}
-	br := fw.RunBin(c.Bin, argv, stdin, nil, d, 120*time.Second)
+	// a share of the runs sees one or two processors only (runtime.NumCPU follows the affinity mask)
+	bin, fullArgv := c.Bin, argv
+	cpus := 0
+	if _, err := exec.LookPath("taskset"); err == nil && runtime.NumCPU() > 2 {
+		switch fw.Mix(uint64(idx)+77) % 5 {
+		case 1:
+			cpus = 1
+		case 3:
+			cpus = 2
+		}
+	}
+	if cpus > 0 {
+		bin, fullArgv = "taskset", append([]string{"-c", fmt.Sprintf("0-%d", cpus-1), c.Bin}, argv...)
+		res.Count(fmt.Sprintf("binary_runs_with_%d_cpu", cpus), 1)
+		argv = append([]string{fmt.Sprintf("[taskset -c 0-%d]", cpus-1)}, argv...)
+	}
+	br := fw.RunBin(bin, fullArgv, stdin, nil, d, 120*time.Second)
 	res.Evals++
 	res.Count("binary_runs", 1)
 	if br.TimedOut {
+		if fw.AnalyseDump(br.Dump) == "deadlock" {
+			f := cloneFiles(files)
+			f["goroutines.txt"] = clipStr(br.Dump, 40000)
+			res.Fail("binary-deadlock:"+tag, fmt.Sprintf("gofasta %v never terminates: closed channel deadlock (the entry point with the same options returned)", argv), f, argv)
+			return
+		}
 		res.Inconclusive = append(res.Inconclusive, "binary watchdog fired")
 		return
 	}
